@@ -4861,7 +4861,10 @@ def _fix_duplicate_from_imports(source: str) -> str:
             module_import_nodes[(node.module, node.level)].append(node)
 
         for (module, level), import_nodes in module_import_nodes.items():
-            if len(import_nodes) > 1:
+            if len(import_nodes) > 1 and not any(
+                core.has_ignore_comment(source, core.get_charnos(node, source))
+                for node in import_nodes
+            ):
                 replacements[import_nodes[0]] = ast.ImportFrom(
                     module=module,
                     names=[
@@ -5117,6 +5120,10 @@ def _sort_import_statements(source: str) -> str:
     replacements = {}
     for nodes in _group_statements_of_type(root, (ast.Import, ast.ImportFrom)):
         if len(nodes) < 2 or set(nodes) & replacements.keys():
+            continue
+
+        # The statements of a group trade places: all of them must be allowed to change
+        if any(core.has_ignore_comment(source, core.get_charnos(node, source)) for node in nodes):
             continue
 
         sorted_nodes = sorted(nodes, key=_import_group_key)
